@@ -284,7 +284,13 @@ class ProgramSet(NamedItem):
         for par in self.pars:
             for pop in self.pops:
                 if (par, pop) in self.covouts and code_name in self.covouts[(par, pop)].progs:
-                    del self.covouts[(par, pop)].progs[code_name]
+                    covout = self.covouts[(par, pop)]
+                    del covout.progs[code_name]
+                    # Also remove any impact interactions involving the program, and refresh the cached outcomes
+                    if covout.imp_interaction and not covout.imp_interaction.lower() in ["best", "synergistic"]:
+                        interactions = [x for x in covout.imp_interaction.split(",") if code_name not in [y.strip() for y in x.split("=")[0].split("+")]]
+                        covout.imp_interaction = ",".join(interactions) if interactions else None
+                    covout.update_outcomes()
 
     def add_pop(self, code_name: str, full_name: str, pop_type: str = None) -> None:
         """
